@@ -74,6 +74,9 @@ def run_oracle(pid, files, widths=None, tabs=None, extra=()):
 
 def find_failing_input(pid, failure, rec) -> bool:
     """Run the property's oracle over the corpus on the real code; record the first input that fails and did not fail before."""
+    if os.environ.get('VERIF_NO_REPLAY') or os.path.realpath(REPO) != '/repo':
+        rec['replay_note'] = 'replay skipped (checks run on a scratch copy of the sources)'
+        return False
     if pid in ('C14', 'C15', 'C16'):
         import cli_replay
         return cli_replay.find_failing_scenario(pid, rec)
